@@ -5,9 +5,12 @@ package main
 // uuid, regexp (native on concrete), sort.Slice, protobuf codec (opaque).
 
 import (
+	"crypto/md5"
+	"crypto/sha256"
 	"fmt"
 	"go/token"
 	"go/types"
+	"hash"
 	"math"
 	"regexp"
 	"sort"
@@ -1164,6 +1167,9 @@ func (in *Interp) errText(v value) string {
 	if e, ok := i.v.(*EngErr); ok {
 		return e.msg
 	}
+	if !in.hasMethod(i.t, "Error") {
+		return "<error?>"
+	}
 	m := in.prog.LookupMethod(i.t, nil, "Error")
 	if m == nil {
 		return "<error?>"
@@ -1183,6 +1189,9 @@ func (in *Interp) unwrapAll(v value) []value {
 	}
 	if e, ok := i.v.(*EngErr); ok {
 		return e.wrapped
+	}
+	if !in.hasMethod(i.t, "Unwrap") {
+		return nil
 	}
 	if m := in.prog.LookupMethod(i.t, nil, "Unwrap"); m != nil {
 		r := in.callValue(m, i.v)
@@ -1214,7 +1223,8 @@ func (in *Interp) errorsIs(err, target value) bool {
 		}
 	}
 	if _, isEng := e.v.(*EngErr); !isEng {
-		if m := in.prog.LookupMethod(e.t, nil, "Is"); m != nil {
+		if !in.hasMethod(e.t, "Is") {
+		} else if m := in.prog.LookupMethod(e.t, nil, "Is"); m != nil {
 			r := in.callValue(m, e.v, target).(*Term)
 			if in.branch(r, "errors.Is method") {
 				return true
@@ -1292,7 +1302,27 @@ func (in *Interp) fmtArg(v value, strict bool) any {
 	if in.hasMethod(i.t, "Error") {
 		return fmtError{in.errText(i)}
 	}
-	if m := in.prog.LookupMethod(i.t, nil, "String"); m != nil && m.Signature.Params().Len() == 0 {
+	if bs, ok := i.v.([]value); ok {
+		if el, isSlice := under(i.t).(*types.Slice); isSlice {
+			if b := basicOf(el.Elem()); b != nil && b.Kind() == types.Uint8 {
+				out := make([]byte, len(bs))
+				for k, x := range bs {
+					t, ok := x.(*Term)
+					if !ok || !t.IsConst() {
+						if strict {
+							panic(engineErr("formatting symbolic bytes"))
+						}
+						return "<symbolic bytes>"
+					}
+					out[k] = byte(t.c)
+				}
+				return out
+			}
+		}
+	}
+	if !in.hasMethod(i.t, "String") {
+		// no Stringer: fall through to structural rendering
+	} else if m := in.prog.LookupMethod(i.t, nil, "String"); m != nil && m.Signature.Params().Len() == 0 {
 		func() {
 			defer func() {
 				if r := recover(); r != nil {
@@ -1859,6 +1889,27 @@ func registerMisc() {
 		}
 		return Float{v: math.Float64frombits(t.c)}
 	}
+	// hashes: native on concrete bytes
+	I["crypto/sha256.New"] = func(in *Interp, fr *frame, fn *ssa.Function, a []value) value {
+		t := fn.Signature.Results().At(0).Type()
+		return iface{t: t, v: &EngHash{h: sha256.New()}}
+	}
+	I["crypto/md5.Sum"] = func(in *Interp, fr *frame, fn *ssa.Function, a []value) value {
+		sum := md5.Sum(in.concreteBytes(a[0], "md5.Sum"))
+		out := make(array, len(sum))
+		for i, b := range sum {
+			out[i] = in.tc.Const(8, uint64(b))
+		}
+		return out
+	}
+	I["crypto/sha256.Sum256"] = func(in *Interp, fr *frame, fn *ssa.Function, a []value) value {
+		sum := sha256.Sum256(in.concreteBytes(a[0], "sha256.Sum256"))
+		out := make(array, len(sum))
+		for i, b := range sum {
+			out[i] = in.tc.Const(8, uint64(b))
+		}
+		return out
+	}
 	I["math/rand.Int63"] = func(in *Interp, fr *frame, fn *ssa.Function, a []value) value {
 		in.uuidSeq++
 		return in.i64(int64(0x1000 + in.uuidSeq))
@@ -1962,3 +2013,55 @@ func registerMisc() {
 }
 
 var _ = token.NoPos
+
+// EngHash wraps a native hash.Hash fed with concrete bytes.
+type EngHash struct{ h hash.Hash }
+
+func (in *Interp) concreteBytes(v value, what string) []byte {
+	bs, ok := v.([]value)
+	if !ok {
+		panic(engineErr("%s: not a byte slice", what))
+	}
+	out := make([]byte, len(bs))
+	for i, x := range bs {
+		t, ok := x.(*Term)
+		if !ok || !t.IsConst() {
+			panic(engineErr("%s of symbolic bytes", what))
+		}
+		out[i] = byte(t.c)
+	}
+	return out
+}
+
+func hashMethod(e *EngHash, meth *types.Func) value {
+	switch meth.Name() {
+	case "Write":
+		return &NativeFunc{name: "hash.Write", fn: func(in *Interp, a []value) value {
+			b := in.concreteBytes(a[1], "hash.Write")
+			e.h.Write(b)
+			return tuple{in.i64(int64(len(b))), iface{}}
+		}}
+	case "Sum":
+		return &NativeFunc{name: "hash.Sum", fn: func(in *Interp, a []value) value {
+			var pre []byte
+			if a[1] != nil {
+				if bs, ok := a[1].([]value); ok && bs != nil {
+					pre = in.concreteBytes(bs, "hash.Sum")
+				}
+			}
+			sum := e.h.Sum(pre)
+			out := make([]value, len(sum))
+			for i, b := range sum {
+				out[i] = in.tc.Const(8, uint64(b))
+			}
+			return out
+		}}
+	case "Reset":
+		return &NativeFunc{name: "hash.Reset", fn: func(in *Interp, a []value) value { e.h.Reset(); return nil }}
+	case "Size":
+		return &NativeFunc{name: "hash.Size", fn: func(in *Interp, a []value) value { return in.i64(int64(e.h.Size())) }}
+	case "BlockSize":
+		return &NativeFunc{name: "hash.BlockSize", fn: func(in *Interp, a []value) value { return in.i64(int64(e.h.BlockSize())) }}
+	}
+	panic(engineErr("hash method %s not modelled", meth.Name()))
+}
